@@ -251,3 +251,25 @@ def c18_check():
 
 
 CHECKS["C18"] = c18_check()
+
+
+def _c12_with_exhaustive():
+    base = CHECKS["C12"]
+    rnd_workers = base["workers"]
+    def workers(tier, seed, work):
+        jobs = rnd_workers(tier, seed, work)
+        L = 5 if tier == "quick" else 7
+        ns = 8 if tier == "quick" else NPROC
+        for i in range(ns):
+            d = os.path.join(work, f"ex{i}")
+            jobs.append(dict(argv=[os.path.join(BIN, "hist.exc"), "--exhaustive-len", str(L), "--shard", str(i), "--nshards", str(ns), "--out", os.path.join(d, "stats.json"), "--faildir", d], out=os.path.join(d, "stats.json"), faildir=d))
+        return jobs
+    base["workers"] = workers
+    base["rule"] += (" Exhaustive part: ALL sequences of length <= 5 (quick) / <= 7 (thorough) over the 9-letter alphabet {init(a,euler_1d), init(b,euler_1d), init(a,heateq_1d_steady_const), select(a), select(b), "
+                     "set(1st parameter), set(2nd parameter), init_param, init<long double>(a,euler_1d)} are executed from the empty registry with the full audit after every step (sequences that would select an absent handle are the "
+                     "fatal path of C16 and are skipped); counted under classes exhaustive_sequence_len=*.")
+    base["exhaustive"] = False
+    return base
+
+
+CHECKS["C12"] = _c12_with_exhaustive()
